@@ -31,14 +31,33 @@ def sut_chebyshev(X, y):
     return np.abs(np.asarray(X, dtype=np.float64) - np.asarray(y, dtype=np.float64)).max(axis=1)
 
 
+_REUSE = {}
+
+
+def sut_chebyshev_reuse(X, y):
+    """A user callable that returns the same output array on every call of a given length (a common optimisation in
+    user code); whoever keeps the result must copy it."""
+    from ..engines import simmpi
+    key = (simmpi.COMM_WORLD.Get_rank(), len(X))       # one buffer per (simulated) process
+    n = len(X)
+    buf = _REUSE.get(key)
+    if buf is None:
+        buf = _REUSE[key] = np.empty(n, dtype=np.float64)
+    buf[...] = np.abs(np.asarray(X, dtype=np.float64) - np.asarray(y, dtype=np.float64)).max(axis=1)
+    return buf
+
+
 METRICS = {
     'euclidean': m_euclid,
     'manhattan': m_manhattan,
     'callable': m_chebyshev,
+    'callable_reuse': m_chebyshev,
 }
 
 
 def sut_metric(name):
+    if name == 'callable_reuse':
+        return sut_chebyshev_reuse
     return sut_chebyshev if name == 'callable' else name
 
 
